@@ -333,7 +333,7 @@ func checkCase(c Case, o *pbt.Rec) pbt.Verdict {
 	}
 	res := rig.Execute(c.Query, rawVars, "")
 	if res.Panic != "" {
-		if strings.Contains(res.Panic, "inject_input_default_values.go") && c.anyObjectInEnumList(varsObj) {
+		if (strings.Contains(res.Panic, "inject_input_default_values.go") && c.anyObjectInEnumList(varsObj)) && pbt.IsKnown(fEnumList) {
 			return pbt.BadKnown(fEnumList, "default injection panics on an object inside a list of enums: %s\nquery: %s\nvariables: %s", firstLine(res.Panic), c.Query, c.Vars)
 		}
 		return pbt.Bad("Execute panicked: %s\nquery: %s\nvariables: %s", res.Panic, c.Query, c.Vars)
@@ -366,31 +366,31 @@ func checkCase(c Case, o *pbt.Rec) pbt.Verdict {
 	case !want && got:
 		o.Label("disagree:invalid-accepted")
 		switch {
-		case c.VarsForm != "object" && onlyKinds(issues, ir.IssMissingVariable):
+		case (c.VarsForm != "object" && onlyKinds(issues, ir.IssMissingVariable)) && pbt.IsKnown(fNoVars):
 			return pbt.BadKnown(fNoVars, "required variable missing, request without a variables object admitted%s", describe())
-		case onlyKinds(issues, ir.IssIntNotIntegral, ir.IssIntRange, ir.IssIDNotIntegral):
+		case (onlyKinds(issues, ir.IssIntNotIntegral, ir.IssIntRange, ir.IssIDNotIntegral)) && pbt.IsKnown(fIntID):
 			return pbt.BadKnown(fIntID, "non-integral or out-of-range number admitted for Int/ID%s", describe())
-		case nullUnderDefaultedField(issues):
+		case (nullUnderDefaultedField(issues)) && pbt.IsKnown(fNullItem):
 			return pbt.BadKnown(fNullItem, "null at a non-null position admitted because the enclosing input field has a default%s", describe())
-		case shift:
+		case (shift) && pbt.IsKnown(fShift):
 			return pbt.BadKnown(fShift, "invalid list element replaced before validation%s", describe())
 		}
 		return pbt.Bad("invalid variables admitted%s", describe())
 	case want && !got:
 		o.Label("disagree:valid-rejected")
-		if res.Err != nil && strings.Contains(res.Err.Error(), "Int cannot represent non 32-bit signed integer value: "+intMin) && strings.Contains(c.Query, intMin) {
+		if (res.Err != nil && strings.Contains(res.Err.Error(), "Int cannot represent non 32-bit signed integer value: "+intMin) && strings.Contains(c.Query, intMin)) && pbt.IsKnown(fIntMin) {
 			return pbt.BadKnown(fIntMin, "operation validation rejects the Int literal %s%s", intMin, describe())
 		}
-		if c.omittedListVarWithNullDefault(varsObj, "") {
+		if (c.omittedListVarWithNullDefault(varsObj, "")) && pbt.IsKnown(fNullDflt) {
 			return pbt.BadKnown(fNullDflt, "omitted list variable with default null is given the value [null]%s", describe())
 		}
-		if c.defaultNeedsListCoercion(varsObj) {
+		if (c.defaultNeedsListCoercion(varsObj)) && pbt.IsKnown(fSingle) {
 			return pbt.BadKnown(fSingle, "a default value that relies on list coercion (single value for a list) is injected as written and then rejected%s", describe())
 		}
-		if c.omittedDefaultedVarInsideLiteral(varsObj) {
+		if (c.omittedDefaultedVarInsideLiteral(varsObj)) && pbt.IsKnown(fVarDflt) {
 			return pbt.BadKnown(fVarDflt, "omitted variable with a default, used inside an argument literal, is extracted as null/absent instead of its default and the request is rejected%s", describe())
 		}
-		if shift {
+		if (shift) && pbt.IsKnown(fShift) {
 			return pbt.BadKnown(fShift, "valid list of input objects corrupted before validation and then rejected%s", describe())
 		}
 		return pbt.Bad("coercible variables rejected%s", describe())
@@ -414,9 +414,9 @@ func checkCase(c Case, o *pbt.Rec) pbt.Verdict {
 			switch {
 			case want:
 				return pbt.Bad("VariablesValidator.Validate on the raw operation rejects coercible variables: %v%s", errRaw, describe())
-			case onlyKinds(issues, ir.IssIntNotIntegral, ir.IssIntRange, ir.IssIDNotIntegral):
+			case (onlyKinds(issues, ir.IssIntNotIntegral, ir.IssIntRange, ir.IssIDNotIntegral)) && pbt.IsKnown(fIntID):
 				return pbt.BadKnown(fIntID, "raw validator: non-integral or out-of-range number admitted for Int/ID%s", describe())
-			case nullUnderDefaultedField(issues):
+			case (nullUnderDefaultedField(issues)) && pbt.IsKnown(fNullItem):
 				return pbt.BadKnown(fNullItem, "raw validator: null at a non-null position admitted because the enclosing input field has a default%s", describe())
 			}
 			return pbt.Bad("VariablesValidator.Validate on the raw operation admits invalid variables%s", describe())
@@ -465,15 +465,15 @@ func checkCase(c Case, o *pbt.Rec) pbt.Verdict {
 	// defect that rewrote the variables before validation.
 	explain := func(named, msg string) (string, string) {
 		listMsg := strings.Contains(msg, `want: "[`) || strings.Contains(msg, "to be an object.")
-		if c.anyObjectInEnumList(varsObj) {
+		if (c.anyObjectInEnumList(varsObj)) && pbt.IsKnown(fEnumList) {
 			return fEnumList, "default injection treated a list of enums as a list of input objects and rewrote it before validation"
 		}
 		switch {
-		case listMsg && c.defaultNeedsListCoercion(varsObj):
+		case (listMsg && c.defaultNeedsListCoercion(varsObj)) && pbt.IsKnown(fSingle):
 			return fSingle, "the rejection is about a default value that relies on list coercion and was injected as written"
-		case c.declared(named) && c.omittedListVarWithNullDefault(varsObj, named):
+		case (c.declared(named) && c.omittedListVarWithNullDefault(varsObj, named)) && pbt.IsKnown(fNullDflt):
 			return fNullDflt, "the rejection is about an omitted list variable with default null that was given the value [null]"
-		case !c.declared(named) && c.omittedDefaultedVarInsideLiteral(varsObj):
+		case (!c.declared(named) && c.omittedDefaultedVarInsideLiteral(varsObj)) && pbt.IsKnown(fVarDflt):
 			return fVarDflt, "the rejection is about the literal extracted around an omitted variable that has a default"
 		}
 		return "", ""
@@ -491,12 +491,12 @@ func checkCase(c Case, o *pbt.Rec) pbt.Verdict {
 		if _, ok := offenders[m[1]]; !ok {
 			if !c.declared(m[1]) {
 				for _, name := range sortedNames(offenders) {
-					if c.usedInsideLiteral(name) {
+					if (c.usedInsideLiteral(name)) && pbt.IsKnown(fSynth) {
 						return pbt.BadKnown(fSynth, "rejection names $%s, a variable the gateway created while extracting the literal that contains the offender $%s: %q%s", m[1], name, msg, describe())
 					}
 				}
 			}
-			if id, why := explain(m[1], msg); id != "" {
+			if id, why := explain(m[1], msg); id != "" && pbt.IsKnown(id) {
 				return pbt.BadKnown(id, "%s: %q%s", why, msg, describe())
 			}
 			return pbt.Bad("rejection names $%s, which coerces; offenders: %v; message %q%s", m[1], issues, msg, describe())
@@ -521,7 +521,7 @@ func checkCase(c Case, o *pbt.Rec) pbt.Verdict {
 		for _, op := range offenders[name] {
 			ok = ok || compatibleModuloListCoercion(mp, op)
 		}
-		if id, why := explain(name, msg); !ok && id != "" {
+		if id, why := explain(name, msg); !ok && id != "" && pbt.IsKnown(id) {
 			return pbt.BadKnown(id, "%s: %q%s", why, msg, describe())
 		}
 		if !ok {
@@ -539,7 +539,7 @@ func checkCase(c Case, o *pbt.Rec) pbt.Verdict {
 		return pbt.OK
 	}
 	o.Label("msg:nested-without-path")
-	if strings.Contains(msg, "was not provided.") || strings.Contains(msg, "to be an object.") || strings.Contains(msg, "not to be null.") {
+	if (strings.Contains(msg, "was not provided.") || strings.Contains(msg, "to be an object.") || strings.Contains(msg, "not to be null.")) && pbt.IsKnown(fNoPath) {
 		return pbt.BadKnown(fNoPath, "nested offender %v reported without a path: %q%s", offenders[name], msg, describe())
 	}
 	return pbt.Bad("nested offender %v reported without a path: %q%s", offenders[name], msg, describe())
